@@ -259,6 +259,18 @@ class C19(RebuildProp):
                 t["files"][0]["cands"] = [{"cls": "intact", "search": 0, "depth": 0}]
                 out.append({"version": v, "P": B, "tree": t, "meta_src": "ref", "meta_name": nm, "hostile": True,
                             "nsearch": 1, "unrelated": 1, "clauses": list(self.clauses)})
+        # zero-length entries with hostile paths: after the last byte of a whole number of pieces, in a
+        # torrent of empty files only, and next to a file whose candidate is missing (piece cannot verify)
+        for v in (1, 2, 3):
+            for h in ("..", "@SBX@/abs", "a/../../b", "../dest_old"):
+                for sizes, missing in (((B, 0), None), ((0, 0), None), ((B + 5, 0, 2 * B), 0), ((2 * B, 0), None)):
+                    sh = {2: "D2", 3: "D3"}[len(sizes)]
+                    t = mk_tree(sh, sizes)
+                    for fi, f in enumerate(t["files"]):
+                        f["meta_path"] = ([h] if f["size"] == 0 else []) + ["e%d.bin" % fi]
+                        f["cands"] = [] if fi == missing else [{"cls": "intact", "search": 0, "depth": 0}]
+                    out.append({"version": v, "P": B, "tree": t, "meta_src": "ref", "hostile": True, "nsearch": 1,
+                                "unrelated": 1, "clauses": list(self.clauses)})
         # benign controls: ordinary names must keep working (copy happens inside the destination)
         for v in (1, 2, 3):
             t = mk_tree("D2", (B + 5, 2 * B))
